@@ -3,3 +3,5 @@ pub mod c02;
 pub mod c03;
 pub mod c04;
 pub mod c05;
+pub mod c06;
+pub mod c15;
